@@ -394,7 +394,12 @@ class FileStore(RuleBasedStateMachine):
     def escape(self, e, op, sharded, absolute):
         name = ESCAPES[e]
         if absolute:
-            name = os.path.join(self.root, "abs_outside")
+            # absolute spellings of outside locations, including one inside a
+            # sibling directory whose name merely EXTENDS the dataset's name
+            name = [os.path.join(self.root, "abs_outside"),
+                    self.base + "_sibling/x",
+                    self.base + "_sibling/../ds_sibling/y",
+                    self.base + "x"][e % 4]
         if sharded:
             from neuroglancer_scripts.sharded_file_accessor import \
                 ShardedFileAccessor
